@@ -171,6 +171,41 @@ Fixpoint jv_eqb (a b : jv) {struct a} : bool :=
             end
   end.
 
+(* Json.cpp CompareNumbers<T1,T2>: the sixteen integer specialisations as written, with the
+   static_casts as machine conversions.  Result -1 / 0 / 1; None when an operand is not an integer
+   node.  JsonX::Equals(other) is CompareNumbers(m_value, other.Value()) == 0 and a == b calls
+   b.Equals(a); a < b is b.Compare(a) == 1. *)
+Definition cast_u32 (z : Z) : Z := (z mod 4294967296)%Z.
+Definition cast_u64 (z : Z) : Z := (z mod 18446744073709551616)%Z.
+Definition cast_i64 (z : Z) : Z :=
+  ((z + 9223372036854775808) mod 18446744073709551616 - 9223372036854775808)%Z.
+Definition three (a b : Z) : Z := if (a <? b)%Z then (-1)%Z else if (b <? a)%Z then 1%Z else 0%Z.
+Definition compare_numbers (a b : jv) : option Z :=
+  match a, b with
+  | JUInt x, JUInt y => Some (three (Z.of_N x) (Z.of_N y))
+  | JUInt x, JInt y => Some (if (y <? 0)%Z then 1%Z else three (Z.of_N x) (cast_u32 y))
+  | JUInt x, JUInt64 y => Some (three (cast_u64 (Z.of_N x)) (Z.of_N y))
+  | JUInt x, JInt64 y => Some (if (y <? 0)%Z then 1%Z else three (cast_i64 (Z.of_N x)) y)
+  | JInt x, JUInt y => Some (if (x <? 0)%Z then (-1)%Z else three (cast_u32 x) (Z.of_N y))
+  | JInt x, JInt y => Some (three x y)
+  | JInt x, JUInt64 y => Some (if (x <? 0)%Z then (-1)%Z else three (cast_u64 x) (Z.of_N y))
+  | JInt x, JInt64 y => Some (three (cast_i64 x) y)
+  | JUInt64 x, JUInt y => Some (three (Z.of_N x) (cast_u64 (Z.of_N y)))
+  | JUInt64 x, JInt y => Some (if (y <? 0)%Z then 1%Z else three (Z.of_N x) (cast_u64 y))
+  | JUInt64 x, JUInt64 y => Some (three (Z.of_N x) (Z.of_N y))
+  | JUInt64 x, JInt64 y => Some (if (y <? 0)%Z then 1%Z else three (Z.of_N x) (cast_u64 y))
+  | JInt64 x, JUInt y => Some (if (x <? 0)%Z then (-1)%Z else three x (cast_i64 (Z.of_N y)))
+  | JInt64 x, JInt y => Some (three x (cast_i64 y))
+  | JInt64 x, JUInt64 y => Some (if (x <? 0)%Z then (-1)%Z else three (cast_u64 x) (Z.of_N y))
+  | JInt64 x, JInt64 y => Some (three x y)
+  | _, _ => None
+  end.
+(* operator== and operator< between two integer nodes, through the double dispatch *)
+Definition num_eq_cpp (a b : jv) : bool :=
+  match compare_numbers b a with Some c => Z.eqb c 0 | None => false end.
+Definition num_lt_cpp (a b : jv) : bool :=
+  match compare_numbers b a with Some c => Z.eqb c 1 | None => false end.
+
 (* ------------------------------------------------------------------ JsonLexer.cpp + JsonParser.cpp *)
 Definition u64 (x : N) : N := x mod 18446744073709551616.
 Definition u32 (x : N) : N := x mod 4294967296.
